@@ -935,3 +935,19 @@ seed("c04-det-guard-in-solve", "C04", BD, "        // LU decomposition\n        
      '        if self.det() == T::zero() { panic!( "Banded matrix solve error: singular matrix." ); }\n        // LU decomposition\n        let mut au = self.compact.clone();', "rejects-only-shapes/solve")
 seed("c10-newton-by-second-derivative", "C10", PM, "            if b.abs() <= err { return; }", "            if b.abs() <= err { return; }\n            let _newton = *x - b / f;", "newton-correction")
 seed("n-c10-newton-by-first-derivative", "C10", PM, "            if b.abs() <= err { return; }", "            if b.abs() <= err { return; }\n            let _newton = if d.abs() > 0.0 { *x - b / d } else { *x };", "SILENT", "neutral: the value over the first derivative is Newton's step")
+_TRIM_OLD = """        if self.coeffs.is_empty() { return; } // nothing to trim
+        let mut i = self.coeffs.len() - 1;
+        while self.coeffs[ i ] == T::zero() && i > 0 {
+            self.coeffs.pop();
+            i -= 1;
+        }"""
+seed("n-c11-trim-rposition", "C11", PM, _TRIM_OLD, """        let keep = match self.coeffs.iter().rposition( |c| !( *c == T::zero() ) ) {
+            Some( top ) => top + 1,
+            None => 1,
+        };
+        self.coeffs.truncate( keep );""", "SILENT", "neutral: the search form of trim")
+seed("c11-trim-rposition-drops-constant", "C11", PM, _TRIM_OLD, """        let keep = match self.coeffs.iter().rposition( |c| !( *c == T::zero() ) ) {
+            Some( top ) => top + 1,
+            None => 0,
+        };
+        self.coeffs.truncate( keep );""", "trim")
